@@ -38,11 +38,11 @@ import (
 	"github.com/nspcc-dev/neo-go/pkg/core/statesync"
 	"github.com/nspcc-dev/neo-go/pkg/core/storage"
 	"github.com/nspcc-dev/neo-go/pkg/core/transaction"
+	"github.com/nspcc-dev/neo-go/pkg/io"
 	"github.com/nspcc-dev/neo-go/pkg/neotest"
 	"github.com/nspcc-dev/neo-go/pkg/smartcontract"
 	"github.com/nspcc-dev/neo-go/pkg/util"
 	"go.uber.org/zap"
-	"go.uber.org/zap/zapcore"
 
 	"verif/harness/internal/chainx"
 	"verif/harness/internal/hx"
@@ -228,7 +228,9 @@ type kase struct {
 	o        *hx.Out
 	r        *prng.R
 	src      *source
-	sync     *chainx.Node
+	sync     *snode
+	crashy   bool // random extra flushes, crash replays at the end
+	anyOrder bool // storage items were delivered in an order the real fetcher never uses (no resume by last key)
 	mod      *statesync.Module
 	P        uint32
 	root     util.Uint256
@@ -238,6 +240,9 @@ type kase struct {
 	trace    []string
 	failed   bool
 	storage  bool
+	info     map[util.Uint256]ninfo
+	// nodes accepted with an inlined child (the child's subtree is what the module may then never ask for)
+	inlinedOK []inlined
 	kvs      []storage.KeyValue // the state at P in the order of the source's trie traversal
 	kvID     map[string]int
 	onReinit func() bool
@@ -293,7 +298,12 @@ func (c *kase) line(op, res string) {
 	}
 	c.o.Line(op, obs)
 	c.trace = append(c.trace, op+";")
+	if c.crashy && c.sync != nil && c.sync.running && c.r.Chance(1, 3) {
+		_ = c.sync.Flush() // one more point at which a crash leaves a prefix of the work
+	}
 }
+
+func (c *kase) mptRoot() state.MPTRoot { return state.MPTRoot{Index: c.P, Root: c.root} }
 
 func safeErr(f func() error) (res string, err error) {
 	defer func() {
@@ -328,9 +338,16 @@ func runCase(k int, f *hx.Flags, o *hx.Out) {
 	plain := r.Chance(1, 3)
 	restartsInMPT := r.Chance(1, 2)
 	restartEvery := 6
-	storageMode := k >= 3 && r.Chance(1, 4)
+	storageMode := k >= 5 && r.Chance(1, 4)
 	if storageMode {
 		o.Count("profile:storage-items-mode")
+	}
+	observe := r.Chance(1, 2)        // flush and read the reference counters / temporary storage after every delivery
+	if k == 3 || k == 4 {
+		// corpus (regressions of panic-on-empty-node, mpt-incomplete-inlined-child): k=3 the single byte 04 (an
+		// EmptyNode) as an MPT node; k=4 a requested node with an inlined child; both must be refused with an error
+		storageMode, plain, restartsInMPT = false, false, false
+		o.Count("corpus")
 	}
 	if k < 3 {
 		// corpus: the repro of the fixed restart panic (0dd24d5): equal values under sibling keys / equal
@@ -351,12 +368,15 @@ func runCase(k int, f *hx.Flags, o *hx.Out) {
 	defer c.src.node.Stop()
 	src := c.src.bc()
 	// log.Fatal inside the node (a failed state jump) must become an observation, not os.Exit
-	syncNode := &chainx.Node{Cfg: protoCfg(c.src.net, interval, mtb, true, storageMode), Backend: chainx.NewBackend(chainx.Memory),
-		Log: zap.New(zapcore.NewNopCore(), zap.WithFatalHook(zapcore.WriteThenPanic))}
-	if err := syncNode.Restart(); err != nil {
+	syncNode := newSnode(protoCfg(c.src.net, interval, mtb, true, storageMode))
+	if err := syncNode.start(); err != nil {
 		panic(err)
 	}
 	c.sync = syncNode
+	c.crashy = k < 5 || r.Chance(1, 3)
+	if c.crashy {
+		o.Count("profile:crash-replays")
+	}
 	defer func() { c.sync.Stop() }()
 
 	// the sync point the module will choose
@@ -372,17 +392,20 @@ func runCase(k int, f *hx.Flags, o *hx.Out) {
 	c.root = hdr.PrevStateRoot
 	// node table of the source trie at P
 	c.nodes = map[util.Uint256][]byte{}
-	type ninfo struct {
-		leaf bool
-		kids map[util.Uint256][][]byte
-	}
 	info := map[util.Uint256]ninfo{}
+	c.info = info
 	if err := src.GetStateSyncModule().Traverse(c.root, func(n mpt.Node, nb []byte) bool {
 		h := n.Hash()
 		if _, ok := c.nodes[h]; !ok {
 			c.nodes[h] = bytes.Clone(nb)
-			_, isLeaf := n.(*mpt.LeafNode)
-			info[h] = ninfo{leaf: isLeaf, kids: mpt.GetChildrenPaths([]byte{}, n)}
+			kind := "B"
+			switch n.(type) {
+			case *mpt.LeafNode:
+				kind = "L"
+			case *mpt.ExtensionNode:
+				kind = "E"
+			}
+			info[h] = ninfo{kind: kind, kids: mpt.GetChildrenPaths([]byte{}, n)}
 		}
 		return false
 	}); err != nil {
@@ -425,11 +448,7 @@ func runCase(k int, f *hx.Flags, o *hx.Out) {
 		for _, kd := range ks {
 			parts = append(parts, fmt.Sprintf("%d:%s", kd.id, hx.Hex(kd.path)))
 		}
-		kind := "N"
-		if inf.leaf {
-			kind = "L"
-		}
-		o.Line(strings.TrimSpace(fmt.Sprintf("node %d %s %s", i, kind, strings.Join(parts, " "))), "ok")
+		o.Line(strings.TrimSpace(fmt.Sprintf("node %d %s %s", i, inf.kind, strings.Join(parts, " "))), "ok")
 	}
 	o.Add("trie:nodes", len(c.hashes))
 	dupPos := 0
@@ -448,6 +467,10 @@ func runCase(k int, f *hx.Flags, o *hx.Out) {
 		o.Count("trie:has-equal-siblings")
 	}
 
+	if k < 5 || c.r.Chance(1, 2) {
+		o.Count("profile:billet-direct")
+		c.billetDirect()
+	}
 	c.storage = storageMode
 	if storageMode {
 		c.kvID = map[string]int{}
@@ -496,6 +519,7 @@ func runCase(k int, f *hx.Flags, o *hx.Out) {
 	}
 
 	// ---- headers
+	c.sync.rec.setPhase("headers")
 	hh := uint32(0)
 	for c.mod.NeedHeaders() {
 		from := hh + 1
@@ -520,8 +544,35 @@ func runCase(k int, f *hx.Flags, o *hx.Out) {
 			}
 			hs = append(hs, h)
 		}
+		// junk from a dishonest peer: one header of the batch altered (it no longer verifies)
+		tampered := ""
+		var tk uint32
+		if len(hs) > 0 && c.r.Chance(1, 6) {
+			j := c.r.Intn(len(hs))
+			hs[j] = tamperHeader(hs[j])
+			tk = from + uint32(j)
+			tampered = fmt.Sprintf(" t%d", tk)
+			o.Count("headers:tampered")
+		}
 		res, err := safeErr(func() error { return c.mod.AddHeaders(hs...) })
-		c.line(fmt.Sprintf("headers %d %d", from, to), res)
+		c.line(fmt.Sprintf("headers %d %d%s", from, to, tampered), res)
+		if tampered != "" {
+			if err == nil && tk > hh && to > hh && from <= hh+1 {
+				c.fail("tampered-header-accepted", "AddHeaders(%d..%d%s) at header height %d was accepted", from, to, tampered, hh)
+				return
+			}
+			if err == nil {
+				o.Count("headers:tampered-skipped")
+				if to > hh && from <= hh+1 {
+					hh = to
+				}
+			}
+			if c.mod.HeaderHeight() != hh {
+				c.fail("tampered-header-accepted", "AddHeaders(%d..%d%s): header height %d, expected %d", from, to, tampered, c.mod.HeaderHeight(), hh)
+				return
+			}
+			continue
+		}
 		if err != nil && !gap {
 			c.fail("valid-data-error", "AddHeaders(%d..%d): %v", from, to, err)
 			return
@@ -543,9 +594,10 @@ func runCase(k int, f *hx.Flags, o *hx.Out) {
 	}
 
 	// ---- raw contract storage items (ContractStorageBased mode)
+	c.sync.rec.setPhase("data")
 	if storageMode {
 		sroot := func() bool {
-			res, err := safeErr(func() error { return c.mod.InitContractStorageSync(state.MPTRoot{Index: c.P, Root: c.root}) })
+			res, err := safeErr(func() error { return c.mod.InitContractStorageSync(c.mptRoot()) })
 			c.line("sroot", res)
 			if err != nil {
 				c.fail("valid-data-error", "InitContractStorageSync: %v", err)
@@ -563,6 +615,7 @@ func runCase(k int, f *hx.Flags, o *hx.Out) {
 			return true
 		}
 		ordered := c.r.Chance(1, 2)
+		c.anyOrder = !ordered
 		if ordered {
 			o.Count("storage:ordered-with-resume")
 		} else {
@@ -654,6 +707,7 @@ func runCase(k int, f *hx.Flags, o *hx.Out) {
 
 	// ---- MPT nodes
 	delivered := map[util.Uint256]bool{}
+	midcalls := 0
 	foreign := func() []byte {
 		// a well-formed leaf that is not part of the trie
 		return bytes.Clone(mpt.NewLeafNode(append([]byte{0xfe, 0xed}, c.r.Bytes(3)...)).Bytes())
@@ -678,6 +732,10 @@ func runCase(k int, f *hx.Flags, o *hx.Out) {
 			// the pool is empty but the stage did not change (the batch that emptied it ended with an error):
 			// the module asks for nothing; any further call completes the stage
 			o.Count("mpt:empty-pool-but-still-needs-data")
+			// (regression of mpt-stalled-empty-pool, fixed by b477a41: the pool is looked at after a failing batch too)
+			// the module requests nothing (server.go:994-995, 1191-1194 send no request for an empty batch), honest
+			// peers answer requests only: nothing but a restart or a stray message would end the MPT stage
+			c.o.Fail("mpt-stalled-empty-pool", c.k, "all nodes of the trie are restored and the pool is empty, but the module still is in the MPT stage and asks for nothing (the batch that emptied the pool ended with an error); steps: %s", strings.Join(c.trace, " "))
 			res, err := safeErr(func() error { return c.mod.AddMPTNodes(nil) })
 			c.line("deliver", res)
 			if err != nil {
@@ -687,9 +745,18 @@ func runCase(k int, f *hx.Flags, o *hx.Out) {
 			continue
 		}
 		allRequestedValid := true
+		var inlinedNow []inlined
 		nItems := c.r.Range(1, 6)
+		wts := []int{12, 3, 3, 1, 1, 2, 1, 1}
 		for i := 0; i < nItems; i++ {
-			switch c.r.Weighted([]int{12, 3, 3, 1, 1}) {
+			cls := c.r.Weighted(wts)
+			if round == 0 && i == 0 && k == 3 {
+				cls = 6
+			}
+			if k == 4 && i == 0 && round < 40 {
+				cls = 7
+			}
+			switch cls {
 			case 0: // a requested node
 				h := need[c.r.Intn(len(need))]
 				batch = append(batch, c.nodes[h])
@@ -718,30 +785,109 @@ func runCase(k int, f *hx.Flags, o *hx.Out) {
 				batch = append(batch, foreign())
 				desc = append(desc, "f")
 				o.Count("deliver:foreign")
-			default:
+			case 4:
 				batch = append(batch, []byte{0x77, 0x01})
 				desc = append(desc, "x")
 				bad = true
 				o.Count("deliver:garbage")
+			case 5: // a serialised HashNode carrying a requested (or any) hash: decodes, Hash() is the hash it carries
+				h := c.hashes[c.r.Intn(len(c.hashes))]
+				if c.r.Chance(2, 3) {
+					h = need[c.r.Intn(len(need))]
+					o.Count("deliver:hashnode-of-requested")
+				} else {
+					o.Count("deliver:hashnode-of-any")
+				}
+				batch = append(batch, append([]byte{byte(mpt.HashT)}, h[:]...))
+				desc = append(desc, fmt.Sprintf("hn%d", c.id[h]))
+				bad = true // refused with an error, requested hash or not (5972fdd)
+			case 6: // the serialisation of an EmptyNode
+				batch = append(batch, []byte{byte(mpt.EmptyT)})
+				desc = append(desc, "e")
+				bad = true
+				o.Count("deliver:empty-node")
+			default: // a requested Branch/Extension node with one child inlined instead of referenced by hash
+				var cands []util.Uint256
+				for _, h := range need {
+					if c.info[h].kind != "L" {
+						cands = append(cands, h)
+					}
+				}
+				if len(cands) == 0 {
+					continue
+				}
+				h := cands[c.r.Intn(len(cands))]
+				nb, rel, ok := c.inlineChild(h)
+				if !ok {
+					continue
+				}
+				batch = append(batch, nb)
+				bad = true // refused: not the canonical form of the node (09bd334)
+				inlinedNow = append(inlinedNow, inlined{h, rel})
+				desc = append(desc, fmt.Sprintf("i%d.%s", c.id[h], hx.Hex(rel)))
+				o.Count("deliver:inlined-child")
 			}
 		}
 		if len(batch) == 0 {
 			continue
 		}
+		// a flush of the write cache in the middle of the call: right when the module reads a node that is on
+		// disk already (a child that was restored at another position before)
+		var flushed chan struct{}
+		if c.crashy && midcalls < 3 && c.r.Chance(1, 2) {
+			c.sync.rec.setHook(func(key []byte, found bool) {
+				if !found || len(key) == 0 || key[0] != byte(storage.DataMPT) || flushed != nil {
+					return
+				}
+				flushed = make(chan struct{})
+				c.sync.rec.setPhase("data-midcall")
+				go func() {
+					_ = c.sync.Flush()
+					close(flushed)
+				}()
+				time.Sleep(3 * time.Millisecond) // the flush is waiting for the write cache's lock by now
+			})
+		}
 		res, err := safeErr(func() error { return c.mod.AddMPTNodes(batch) })
-		c.line("deliver "+strings.Join(desc, " "), res)
+		c.sync.rec.setHook(nil)
+		if flushed != nil {
+			<-flushed
+			midcalls++
+			c.sync.rec.setPhase("data")
+			o.Count("crashpoint:flush-inside-AddMPTNodes")
+		}
+		if observe {
+			rc, ts, oerr := c.observeStore()
+			if oerr != nil {
+				c.fail("harness-observe", "%v", oerr)
+				return
+			}
+			c.line("deliver+ "+strings.Join(desc, " "), fmt.Sprintf("%s rc=%d ts=%s", res, rc, ts))
+		} else {
+			c.line("deliver "+strings.Join(desc, " "), res)
+		}
 		if res == "panic" {
-			c.fail("panic", "AddMPTNodes(%s): %v", strings.Join(desc, " "), err)
+			key := "panic"
+			if strings.Contains(err.Error(), "hash of an EmptyNode") {
+				key = "panic-on-empty-node"
+			}
+			c.fail(key, "AddMPTNodes(%s): %v", strings.Join(desc, " "), err)
 			return
 		}
 		if err != nil && !bad && allRequestedValid {
 			c.fail("valid-data-error", "AddMPTNodes(%s): %v", strings.Join(desc, " "), err)
 			return
 		}
+		c.inlinedOK = append(c.inlinedOK, inlinedNow...) // (an item before a failing one of the batch was processed too)
 		if c.mod.NeedStorageData() && restartsInMPT && c.r.Chance(1, restartEvery) {
 			if !reinit("mpt") {
 				return
 			}
+		}
+	}
+	if !storageMode {
+		if !c.checkStoreComplete() {
+			return
 		}
 	}
 	if c.r.Chance(1, 3) {
@@ -751,6 +897,7 @@ func runCase(k int, f *hx.Flags, o *hx.Out) {
 	}
 
 	// ---- blocks
+	c.sync.rec.setPhase("blocks")
 	// A transaction that is on no chain at all: whatever carries it must be rejected and leave nothing behind.
 	users0 := c.src.net.Single(1)
 	var foreignTxs []*transaction.Transaction
@@ -865,6 +1012,25 @@ func runCase(k int, f *hx.Flags, o *hx.Out) {
 				break
 			}
 		}
+		if c.r.Chance(1, 5) {
+			// the block's own transactions under a header that is not the chain's header of that index
+			fb := tamperBlock(b)
+			res, err := safeErr(func() error { return c.mod.AddBlock(fb) })
+			var bhs string
+			if c.mod.NeedBlocks() {
+				bhs = fmt.Sprintf(" bh=%d", c.mod.BlockHeight())
+			}
+			c.line(fmt.Sprintf("fakeblock %d", idx), res+bhs)
+			o.Count("block:foreign-header")
+			if res == "panic" {
+				c.fail("panic", "AddBlock(foreign header %d): %v", idx, err)
+				return
+			}
+			if err == nil && c.mod.BlockHeight() != bh {
+				c.fail("foreign-header-block-accepted", "AddBlock accepted block %d under a header that is not the chain's (module height %d -> %d)", idx, bh, c.mod.BlockHeight())
+				return
+			}
+		}
 		res, err := safeErr(func() error { return c.mod.AddBlock(b) })
 		var bhs string
 		if c.mod.NeedBlocks() {
@@ -893,6 +1059,9 @@ func runCase(k int, f *hx.Flags, o *hx.Out) {
 		return
 	}
 	sb := c.sync.BC
+	_ = c.sync.Flush()
+	c.sync.rec.setPhase("after")
+	jumpBatches := c.sync.rec.snapshot()
 	if sb.BlockHeight() != c.P {
 		c.fail("root-mismatch", "synced node height %d, sync point %d", sb.BlockHeight(), c.P)
 		return
@@ -981,7 +1150,36 @@ func runCase(k int, f *hx.Flags, o *hx.Out) {
 	}
 	c.o.Line("final", "synced")
 	o.Count("case:synced")
+	if c.crashy && !c.anyOrder {
+		o.Add("crashpoint:batches", len(jumpBatches))
+		if !c.crashReplays(jumpBatches, top) {
+			return
+		}
+	}
 	o.Sample(fmt.Sprintf("P=%d top=%d nodes=%d: %s", c.P, top, len(c.hashes), strings.Join(c.trace, " ")))
+}
+
+// tamperHeader returns the header with one bit of its timestamp flipped (another hash, the witness does
+// not fit any more).
+func tamperHeader(h *block.Header) *block.Header {
+	w := io.NewBufBinWriter()
+	h.EncodeBinary(w.BinWriter)
+	bs := w.Bytes()
+	bs[4+32+32] ^= 0x01 // version, prev hash, merkle root, then the timestamp
+	res := &block.Header{StateRootEnabled: h.StateRootEnabled}
+	r := io.NewBinReaderFromBuf(bs)
+	res.DecodeBinary(r)
+	if r.Err != nil {
+		panic(r.Err)
+	}
+	if res.Hash().Equals(h.Hash()) {
+		panic("tamperHeader: same hash")
+	}
+	return res
+}
+
+func tamperBlock(b *block.Block) *block.Block {
+	return &block.Block{Header: *tamperHeader(&b.Header), Transactions: b.Transactions}
 }
 
 func main() {
